@@ -42,6 +42,10 @@ def gen_case(rng, tier, avoid):
                 okw['set_name'] = 'OSET%d' % rng.randint(0, 1)
             if k and rng.random() < 0.4:
                 okw['origin_reference'] = [5, 17, 130, 20000][k % 4] + li
+            if rng.random() < 0.1:
+                # FILE-SET-NUMBER handed over in a wrapper that carries no value (e.g. AttrSetup(value=cfg.get(...)) with
+                # nothing configured): the same as not given - the documented default applies
+                okw['file_set_number'] = rng.choice([{'$dict': {}}, {'$setup': {}}, {'$setup': {'value': None}}])
             spec.origin(lfi, nm='ORIGIN-%d-%d' % (li, k), **okw)
         used = set()
         for _ in range(rng.choice([1, 1, 2])):
